@@ -145,7 +145,7 @@ func strFormat(L *LState) int {
 func strGsub(L *LState) int {
 	str := L.CheckString(1)
 	pat := L.CheckString(2)
-	L.CheckTypes(3, LTString, LTTable, LTFunction)
+	L.CheckTypes(3, LTString, LTNumber, LTTable, LTFunction)
 	repl := L.CheckAny(3)
 	limit := L.OptInt(4, len(str)+1)
 	if limit <= 0 { // Lua 5.1: while (n < max_s) — nothing is replaced
@@ -166,6 +166,8 @@ func strGsub(L *LState) int {
 	switch lv := repl.(type) {
 	case LString:
 		L.Push(LString(strGsubStr(L, str, string(lv), mds)))
+	case LNumber:
+		L.Push(LString(strGsubStr(L, str, lv.String(), mds)))
 	case *LTable:
 		L.Push(LString(strGsubTable(L, str, lv, mds)))
 	case *LFunction:
@@ -260,6 +262,9 @@ func strGsubTable(L *LState, str string, repl *LTable, matches []*pm.MatchData) 
 			value = L.GetField(repl, str[match.Capture(idx):match.Capture(idx+1)])
 		}
 		if !LVIsFalse(value) {
+			if !LVCanConvToString(value) {
+				L.RaiseError("invalid replacement value (a %s)", value.Type().String())
+			}
 			infoList = append(infoList, replaceInfo{[]int{match.Capture(0), match.Capture(1)}, LVAsString(value)})
 		}
 	}
@@ -288,6 +293,9 @@ func strGsubFunc(L *LState, str string, repl *LFunction, matches []*pm.MatchData
 		L.Call(nargs, 1)
 		ret := L.reg.Pop()
 		if !LVIsFalse(ret) {
+			if !LVCanConvToString(ret) {
+				L.RaiseError("invalid replacement value (a %s)", ret.Type().String())
+			}
 			infoList = append(infoList, replaceInfo{[]int{start, end}, LVAsString(ret)})
 		}
 	}
